@@ -583,6 +583,10 @@ macro_rules! set_instance_like {
         let a: &Ann = $a;
         let mut x = <$T>::default();
         if let Some(v) = &a.title {
+            if v.len() % 2 == 0 {
+                x.set_title(format!("{v}~superseded"));
+                $n += 1;
+            }
             x.set_title(v.clone());
             $n += 1;
         }
@@ -595,6 +599,10 @@ macro_rules! set_instance_like {
             $n += 1;
         }
         if let Some(v) = &a.license {
+            if v.len() % 2 == 1 {
+                x.set_license(String::new());
+                $n += 1;
+            }
             x.set_license(v.clone());
             $n += 1;
         }
@@ -611,6 +619,11 @@ macro_rules! set_instance_like {
             $n += 1;
         }
         for (k, v) in &a.user {
+            // every other key is set twice: the later call replaces the earlier value
+            if k.len() % 2 == 0 {
+                x.set_other(k.clone(), format!("{v}~superseded"));
+                $n += 1;
+            }
             x.set_other(k.clone(), v.clone());
             $n += 1;
         }
@@ -643,6 +656,11 @@ macro_rules! set_solution_like {
             $n += 1;
         }
         for (k, v) in &a.user {
+            // every other key is set twice: the later call replaces the earlier value
+            if k.len() % 2 == 0 {
+                x.set_other(k.clone(), format!("{v}~superseded"));
+                $n += 1;
+            }
             x.set_other(k.clone(), v.clone());
             $n += 1;
         }
@@ -838,7 +856,7 @@ impl Property for C20 {
         }
     }
     fn rule(&self) -> &'static str {
-        "each case: one local OCI archive (unnamed or named, with or without add_config) built from a history of 0-6 Builder::add_{instance, parametric_instance, solution, sample_set} calls; messages: random instances (gen_instance, dyadic regime), ParametricInstance::from(instance)+0-3 parameters, states (in-bound states or hand-built incl. -0.0/inf/subnormal/huge ids), sample sets (Instance::evaluate_samples or hand-built), occasionally the empty message of the kind or a repeat of an earlier message (duplicate digests, also across kinds); annotations through every typed setter with density 0/sparse/half/full: hostile strings (empty, spaces, unicode incl. astral and control characters, quotes, commas except in author names, 100-500 chars), nanosecond instants 1900-2200 as DateTime<Local> in a seed-chosen non-UTC zone, usize incl. 0 and MAX, random sha256 digests, JSON values of depth <= 2, 0-3 org.ommx.user.* keys; build(), drop, Artifact::from_oci_archive, then get_manifest, get_layer, get_<kind> for all four kinds per layer, typed getters, unknown digests, get_layer_descriptors per media type, get_instances, get_solutions; every 4th case additionally builds a non-OMMX archive through ocipkg and reads its manifest. Non-trivial = history with at least one layer; distinct = fingerprint of (kind sequence, order-insensitive hash of each encoded message, sorted annotation maps)."
+        "each case: one local OCI archive (unnamed or named, with or without add_config) built from a history of 0-6 Builder::add_{instance, parametric_instance, solution, sample_set} calls; messages: random instances (gen_instance, dyadic regime), ParametricInstance::from(instance)+0-3 parameters, states (in-bound states or hand-built incl. -0.0/inf/subnormal/huge ids), sample sets (Instance::evaluate_samples or hand-built), occasionally the empty message of the kind or a repeat of an earlier message (duplicate digests, also across kinds); annotations through every typed setter with density 0/sparse/half/full: hostile strings (empty, spaces, unicode incl. astral and control characters, quotes, commas except in author names, 100-500 chars), nanosecond instants 1900-2200 as DateTime<Local> in a seed-chosen non-UTC zone, usize incl. 0 and MAX, random sha256 digests, JSON values of depth <= 2, 0-3 org.ommx.user.* keys, about half of the user keys, titles and licences set twice (the later value counts); build(), drop, Artifact::from_oci_archive, then get_manifest, get_layer, get_<kind> for all four kinds per layer, typed getters, unknown digests, get_layer_descriptors per media type, get_instances, get_solutions; every 4th case additionally builds a non-OMMX archive through ocipkg and reads its manifest. Non-trivial = history with at least one layer; distinct = fingerprint of (kind sequence, order-insensitive hash of each encoded message, sorted annotation maps)."
     }
     fn assumptions(&self) -> Vec<&'static str> {
         vec![
